@@ -264,18 +264,15 @@ def rule_entry(rep, d, fns):
             continue
         ps = [p.get("name") for p in ir.params(fn)]
         rets = [s for s in ir.walk_expr(ir.body(fn)) if s.get("kind") == "ReturnStmt"]
-        t = ir.sx(ir.ekids(rets[0])[0]) if len(rets) == 1 else None
-        while t is not None and t[0] == "cast":
-            t = t[3]
+        from .. import fstring as fs_
+        from .. import norm as norm_
+        t = fs_.subst_locals(ir.sx(ir.ekids(rets[0])[0]), fs_.local_sx(fn)) if len(rets) == 1 else None      # hoisted locals are read through
+        t = norm_.deep_uncast(t) if t is not None else None
         ok = False
         got = ir.show(t) if t else "?"
         if t is not None and t[0] == "call" and len(t) == 5:
             cn = t[1][1] if t[1][0] == "ref" else "?"
-            args = []
-            for a in t[2:]:
-                while a[0] == "cast":
-                    a = a[3]
-                args.append(a)
+            args = list(t[2:])
             ok = cn == callee and args == [("ref", p) for p in ps]
         if name == "murmur2_x64" and ok:
             # must select the 64-bit specialisation
@@ -306,7 +303,9 @@ def rule_std_hash(rep):
     fn = pats[0]
     pname = ir.params(fn)[0].get("name")
     rets = [s for s in ir.walk_expr(ir.body(fn)) if s.get("kind") == "ReturnStmt"]
-    t = ir.sx(ir.ekids(rets[0])[0]) if len(rets) == 1 else None
+    from .. import fstring as fs_
+    from .. import norm as norm_
+    t = norm_.deep_uncast(fs_.subst_locals(ir.sx(ir.ekids(rets[0])[0]), fs_.local_sx(fn))) if len(rets) == 1 else None
     got = ir.show(t) if t else "?"
     ok = False
     why = ""
@@ -336,7 +335,21 @@ def rule_addr(rep, d, fns):
             continue
         name = fn.get("name") if label in ("x86", "x64", "load") else label
         problems = []
-        for n in ir.walk_expr(ir.body(fn)):
+        # helpers of the library that the kernel calls are part of the hash: they are held to the same rule (closed under calls)
+        bodies = [ir.body(fn)]
+        seen_h = {fn.get("id")}
+        qi = 0
+        while qi < len(bodies):
+            for n in ir.walk_expr(bodies[qi]):
+                if n.get("kind") == "CallExpr":
+                    c_ = ir.strip(ir.ekids(n)[0])
+                    tgt = d.by_id.get((c_.get("referencedDecl") or {}).get("id")) if c_.get("kind") == "DeclRefExpr" else None
+                    if tgt is not None and ir.body(tgt) is not None and tgt.get("id") not in seen_h and "/xtl/" in (d.where(tgt) or ""):
+                        seen_h.add(tgt.get("id"))
+                        bodies.append(ir.body(tgt))
+            qi += 1
+        helper_names = {(d.by_id.get(i) or {}).get("name") for i in seen_h}
+        for n in (x for b_ in bodies for x in ir.walk_expr(b_)):
             k = n.get("kind")
             if n.get("castKind") == "PointerToIntegral":
                 problems.append((n, "converts a pointer to an integer (`%s`): the result would depend on the buffer's address" % d.text(n)[:60]))
@@ -358,7 +371,7 @@ def rule_addr(rep, d, fns):
             if k == "CallExpr":
                 t = ir.sx(n)
                 cn = t[1][1] if t[1][0] == "ref" else ir.show(t[1])
-                if cn not in ALLOWED_CALLEES:
+                if cn not in ALLOWED_CALLEES and str(cn).split("::")[-1] not in helper_names:
                     problems.append((n, "calls `%s`, which is outside the hash's closed call graph" % cn))
         if problems:
             for n, why in problems:
@@ -427,102 +440,311 @@ def var_op_lit(t, ops):
     return None
 
 
+def _loads_in(d, node, depth=0):
+    """(call node, source pointer node, size in bytes or None) of the block loads below `node`: memcpy(&x, SRC, n) written there, or inside a
+    library helper that is called with the pointer (read_block32(p) { memcpy(&k, p, sizeof k) })"""
+    out = []
+    seen_n = set()
+    for n in [node] + list(ir.walk_expr(node)):
+        if n.get("kind") != "CallExpr" or id(n) in seen_n:
+            continue
+        seen_n.add(id(n))
+        ks = ir.ekids(n)
+        c_ = ir.strip(ks[0])
+        nm = (c_.get("referencedDecl") or {}).get("name") if c_.get("kind") == "DeclRefExpr" else None
+        if nm in ("memcpy", "memmove") and len(ks) == 4:
+            sz = ir.strip(ks[3])
+            size = None
+            if sz.get("kind") == "UnaryExprOrTypeTraitExpr":
+                at = sz.get("argType") or {}
+                q = at.get("desugaredQualType") or at.get("qualType")
+                if q is None and ir.ekids(sz):
+                    q = ir.qtype(ir.ekids(sz)[0])
+                size = {"unsigned int": 4, "uint32_t": 4, "int": 4, "unsigned long": 8, "std::size_t": 8, "size_t": 8, "uint64_t": 8, "unsigned long long": 8, "long": 8}.get((q or "").replace("const ", ""))
+            else:
+                iv = trange.interval(ks[3])
+                size = iv[0] if iv and iv[0] == iv[1] else None
+            out.append((n, ks[2], size))
+        elif nm and depth < 2:
+            tgt = d.by_id.get((c_.get("referencedDecl") or {}).get("id"))
+            if tgt is not None and ir.body(tgt) is not None and "/xtl/" in (d.where(tgt) or "") and nm != "load_bytes":
+                ps = [p.get("name") for p in ir.params(tgt)]
+                for ln, src, size in _loads_in(d, ir.body(tgt), depth + 1):
+                    s_ = ir.strip(src)
+                    while s_.get("kind") in ("ImplicitCastExpr", "CStyleCastExpr", "CXXStaticCastExpr", "CXXReinterpretCastExpr") and ir.ekids(s_):
+                        s_ = ir.strip(ir.ekids(s_)[-1])
+                    if s_.get("kind") == "DeclRefExpr" and (s_.get("referencedDecl") or {}).get("name") in ps:
+                        out.append((n, ks[1 + ps.index((s_.get("referencedDecl") or {}).get("name"))], size))
+    return out
+
+
+def _ptr_lin(node, lin_of):
+    n = ir.strip(node)
+    while n.get("kind") in ("ImplicitCastExpr", "CStyleCastExpr", "CXXStaticCastExpr", "CXXReinterpretCastExpr") and ir.ekids(n):
+        n = ir.strip(ir.ekids(n)[-1])
+    return lin_of(n)
+
+
 def rule_cursor(rep, d, fns):
     rep.rule("C14.cursor", "each read is covered by the remaining length: block loads of w bytes sit in a loop guarded by remaining >= w "
                            "(or by an end pointer computed with & ~(w-1)), the cursor and the remaining length advance by w, tail cases read "
                            "only indices below the smallest case label that reaches them, and load_bytes(p, n) is called with n = length & (w-1) != 0")
-    # ---- 32-bit kernel ----
-    seq, _ = effect_sequence(fns["x86"])
+    from .. import norm, flow
+    from ..linear import Lin
+    R = "C14.cursor"
+    # ---- 32-bit kernel ------------------------------------------------------------------------------------------------------------
     fn = fns["x86"]
     where = d.where(fn)
-    cur = None
-    width_ok = True
-    i = 0
+    top = ir.kids(ir.body(fn))
+    loops = [(i, s_) for i, s_ in enumerate(top) if s_.get("kind") in ("WhileStmt", "ForStmt", "DoStmt") and _loads_in(d, s_)]
     guard = None
-    reads = []
-    while i < len(seq):
-        e = seq[i]
-        if e[0] == "while" and e[1][0] == "bin" and e[1][1] == ">=":
-            guard = lit_int(e[1][3])
-            j = i + 1
-            loads, steps = [], []
-            while seq[j] != ("end",):
-                s = seq[j]
-                if s[0] == "call" and s[1] == ("ref", "memcpy"):
-                    sz = s[4]
-                    loads.append(4 if sz[0] == "sizeof" else lit_int(sz))
-                vk = var_op_lit(s[3], ("+", "-")) if s[0] == "bin" and s[1] == "=" else None
-                if vk is not None and vk[0] == s[2]:
-                    steps.append((vk[1], vk[2]))
-                j += 1
-            ok = guard is not None and all(l is not None and l <= guard for l in loads) and sorted(steps) == [("+", guard), ("-", guard)] and loads
-            (rep.holds if ok else rep.violates)("C14.cursor", "murmur2_x86_impl", "block loop", where=where,
-                                                detail="guard remaining >= %s, loads %s, steps %s" % (guard, loads, steps))
-            i = j
-        if e[0] == "switch":
-            labels = []
-            j = i + 1
-            while seq[j] != ("end",):
-                s = seq[j]
-                if s[0] == "case":
-                    labels.append(lit_int(s[1]))
+    cursor = None
+    if len(loops) != 1:
+        rep.inconclusive(R, "murmur2_x86_impl", "block loop", where=where, detail="expected one top-level loop with block loads, found %d" % len(loops))
+    else:
+        li, loop = loops[0]
+        cond, parts, body = norm.loop_parts(loop)
+        c = norm.norm_cmp(ir.sx(cond), lambda x: x[0] == "ref") if cond is not None else None
+        nvar = None
+        if c is not None and norm.int_of(c[2]) is not None and c[0] in (">=", ">"):
+            nvar, guard = c[1][1], norm.int_of(c[2]) + (1 if c[0] == ">" else 0)
+        snaps = []
+
+        def on_part(x, env, lin_of):
+            for ln, src, size in _loads_in(d, x):
+                snaps.append((ln, _ptr_lin(src, lin_of), size))
+        env = norm.sym_step(parts, on_part)
+        if guard is None:
+            rep.inconclusive(R, "murmur2_x86_impl", "block loop", where=d.where(loop), detail="the loop is not guarded by `remaining >= <constant>` (an index-based loop needs a different argument)")
+        elif not snaps or any(p_ is None or sz is None for _, p_, sz in snaps):
+            rep.inconclusive(R, "murmur2_x86_impl", "block loop", where=d.where(loop), detail="block load address or size is not linear in the cursor")
+        else:
+            pvars = {k_ for _, p_, _ in snaps for k_ in p_ if k_ != ""}
+            if len(pvars) != 1:
+                rep.inconclusive(R, "murmur2_x86_impl", "block loop", where=d.where(loop), detail="loads through %s" % sorted(pvars))
+            else:
+                cursor = pvars.pop()
+                dn = env.get(nvar, Lin({nvar: 1})) - Lin({nvar: 1})
+                dp = env.get(cursor, Lin({cursor: 1})) - Lin({cursor: 1})
+                problems = []
+                step = dp.get("", 0) if set(dp) <= {""} else None
+                if step is None or step <= 0:
+                    problems.append("the cursor does not advance by a positive constant per iteration (%s)" % dp.show())
+                elif dn != Lin({"": -step}):
+                    problems.append("the cursor advances by %d but the remaining length changes by %s" % (step, dn.show()))
+                elif step > guard:
+                    problems.append("each iteration consumes %d bytes but the guard only guarantees %d" % (step, guard))
+                for ln, p_, sz in snaps:
+                    off = p_.get("", 0)
+                    if p_.get(cursor) != 1 or off < 0 or off + sz > guard:
+                        problems.append("a %d-byte load at cursor%+d is not covered by `remaining >= %d`" % (sz, off, guard))
+                (rep.violates if problems else rep.holds)(R, "murmur2_x86_impl", "block loop", where=d.where(loop),
+                                                          detail="; ".join(problems) if problems else "guard remaining >= %d, loads %s, cursor +%d, remaining -%d" % (guard, [(p_.get("", 0), sz) for _, p_, sz in snaps], step, step))
+        # ---- tail: for every remainder v the bytes read are exactly cursor[0..v-1]
+        if guard is not None and cursor is not None and nvar is not None:
+            rest = top[li + 1:]
+            w_ = flow.Walker()
+            paths = list(w_.block(rest))
+            for v in range(guard):
+                got = set()
+                undecided = None
+                for steps, outcome in paths:
+                    feas = True
+                    reads = set()
+                    labels_seen = False
+                    for st in steps:
+                        if st[0] == "cond":
+                            c2 = norm.norm_cmp(ir.sx(st[1]), lambda x: x == ("ref", nvar))
+                            if c2 is None:
+                                t_ = norm.uncast(ir.sx(st[1]))
+                                if t_ == ("ref", nvar):
+                                    truth = v != 0
+                                else:
+                                    continue          # a condition on something else: both outcomes are followed
+                            else:
+                                k_ = norm.int_of(c2[2])
+                                if k_ is None:
+                                    undecided = "condition `%s`" % d.text(st[1])[:40]
+                                    continue
+                                truth = {"<": v < k_, "<=": v <= k_, ">": v > k_, ">=": v >= k_, "==": v == k_, "!=": v != k_}[c2[0]]
+                            if truth != st[2]:
+                                feas = False
+                                break
+                        elif st[0] == "case":
+                            sw = d.parent_of(d.parent_of(st[1])) if st[1] is not None else None
+                            if st[1] is None:
+                                # no label taken: feasible only if no label equals v (decided below through the labelled paths)
+                                feas = v not in case_labels(rest, nvar)
+                            elif st[1].get("kind") == "DefaultStmt":
+                                feas = v not in case_labels(rest, nvar)
+                            else:
+                                iv = trange.interval(ir.ekids(st[1])[0])
+                                feas = iv is not None and iv[0] == iv[1] == v
+                            if not feas:
+                                break
+                        elif st[0] in ("ev",):
+                            for node, base, idx in subscripts_of(st[1]):
+                                b_ = ir.strip(base)
+                                if b_.get("kind") == "DeclRefExpr" and (b_.get("referencedDecl") or {}).get("name") == cursor:
+                                    iv = trange.interval(idx)
+                                    if iv is None or iv[0] != iv[1]:
+                                        undecided = "index of `%s`" % d.text(node)[:30]
+                                    else:
+                                        reads.add(iv[0])
+                                elif "char" in ir.qtype(b_) and "*" in ir.qtype(b_):
+                                    undecided = "read through `%s`, which is not the block cursor" % d.text(base)[:30]
+                    if feas:
+                        got |= reads
+                label = "tail with %d byte(s) left" % v
+                if undecided:
+                    rep.inconclusive(R, "murmur2_x86_impl", label, where=where, detail=undecided)
+                elif any(ix >= v for ix in got):
+                    rep.violates(R, "murmur2_x86_impl", label, where=where, detail="reads %s[%d] although only %d byte(s) remain: a read past buffer + length" % (cursor, max(got), v))
+                elif got != set(range(v)):
+                    rep.violates(R, "murmur2_x86_impl", label, where=where, detail="mixes in bytes %s of the remaining %d: bytes %s never reach the hash" % (sorted(got), v, sorted(set(range(v)) - got)))
                 else:
-                    idxs = [lit_int(t[2]) for t in ir.subterms(s) if isinstance(t, tuple) and t and t[0] == "index"]
-                    for ix in idxs:
-                        # reached by every label seen so far (fall-through) - the smallest one bounds the index
-                        lim = min(labels) if labels else 0
-                        ok = ix is not None and ix < lim
-                        (rep.holds if ok else rep.violates)("C14.cursor", "murmur2_x86_impl", "tail read data[%s]" % ix, where=where,
-                                                            detail="reached with remaining in %s; index must be < %s" % (sorted(labels), lim))
-                j += 1
-            if guard is not None and labels and max(labels) != guard - 1:
-                rep.violates("C14.cursor", "murmur2_x86_impl", "tail cases", where=where,
-                             detail="tail handles remainders %s but the block loop leaves up to %d bytes" % (sorted(labels), guard - 1))
-            elif labels:
-                rep.holds("C14.cursor", "murmur2_x86_impl", "tail cases", where=where, detail="cases %s cover remainders 1..%d" % (sorted(labels), guard - 1))
-            i = j
-        i += 1
-    # ---- 64-bit kernel ----
-    seq, _ = effect_sequence(fns["x64"])
+                    rep.holds(R, "murmur2_x86_impl", label, where=where, detail="reads exactly %s" % sorted(got))
+    # ---- 64-bit kernel ------------------------------------------------------------------------------------------------------------
     fn = fns["x64"]
     where = d.where(fn)
-    mask_end = None
-    for e in seq:
-        if e[0] == "decl" and e[2] is not None and e[2][0] == "bin" and e[2][1] == "+":
-            for t in ir.subterms(e[2]):
-                if t[0] == "bin" and t[1] == "&" and any(x[0] == "un" and x[1] == "~" for x in t[2:]):
-                    inv = [x for x in t[2:] if x[0] == "un" and x[1] == "~"][0]
-                    mask_end = lit_int(inv[2])
-    loads, steps, tailmask, callmask = [], [], None, None
-    in_loop = False
-    for e in seq:
-        if e[0] == "while":
-            in_loop = True
-        if e == ("end",):
-            in_loop = False
-        if e[0] == "call" and e[1] == ("ref", "memcpy"):
-            loads.append((in_loop, 8 if e[4][0] == "sizeof" else lit_int(e[4])))
-        vk = var_op_lit(e[3], ("+",)) if in_loop and e[0] == "bin" and e[1] == "=" else None
-        if vk is not None and vk[0] == e[2]:
-            steps.append(vk[2])
-        if e[0] == "if":
-            for t in ir.subterms(e[1]):
-                vk = var_op_lit(t, ("&",))
-                if vk is not None:
-                    tailmask = vk[2]
-        if e[0] == "decl" and e[2] is not None and e[2][0] == "call" and e[2][1] == ("ref", "load_bytes"):
-            for t in ir.subterms(e[2][3]):
-                vk = var_op_lit(t, ("&",))
-                if vk is not None:
-                    callmask = vk[2]
-    w = mask_end + 1 if mask_end is not None else None
-    ok = w is not None and loads and all(inl and sz is not None and sz <= w for inl, sz in loads) and steps == [w]
-    (rep.holds if ok else rep.violates)("C14.cursor", "murmur_hash<8>", "block loop", where=where,
-                                        detail="end = data + (length & ~%s); loads (in loop?, size) %s; cursor steps %s%s" % (
-                                            mask_end, loads, steps, "" if ok else " - a load outside the guarded loop or wider than the block reads past buffer+length"))
-    ok = w is not None and tailmask == w - 1 and callmask == w - 1
-    (rep.holds if ok else rep.violates)("C14.cursor", "murmur_hash<8>", "tail", where=where,
-                                        detail="tail guard mask %s, load_bytes count mask %s, block width %s" % (tailmask, callmask, w))
+    loc = {k_: norm.deep_uncast(v_) for k_, v_ in fs_local_sx(fn).items()}
+    ps = [p.get("name") for p in ir.params(fn)]
+
+    def resolve(t, depth=0):
+        t = norm.deep_uncast(t)
+        if depth > 8 or not isinstance(t, tuple):
+            return t
+        if t[0] == "ref" and t[1] in loc:
+            return resolve(loc[t[1]], depth + 1)
+        return tuple(resolve(x, depth + 1) if isinstance(x, tuple) else x for x in t)
+
+    def end_form(t):
+        """base + (length & ~(w-1)) -> (base, w)"""
+        t = resolve(t)
+        if t[0] == "bin" and t[1] == "+":
+            for base, m in ((t[2], t[3]), (t[3], t[2])):
+                if m[0] == "bin" and m[1] == "&":
+                    for L_, inv in ((m[2], m[3]), (m[3], m[2])):
+                        if L_ == ("ref", ps[1]) and inv[0] == "un" and inv[1] == "~" and norm.int_of(inv[2]) is not None:
+                            return base, norm.int_of(inv[2]) + 1
+        return None
+
+    def low_mask(t):
+        """length & (w-1) -> w"""
+        t = resolve(t)
+        if t[0] == "bin" and t[1] == "&":
+            for L_, m in ((t[2], t[3]), (t[3], t[2])):
+                if L_ == ("ref", ps[1]) and norm.int_of(m) is not None:
+                    return norm.int_of(m) + 1
+        return None
+    top = ir.kids(ir.body(fn))
+    loops = [(i, s_) for i, s_ in enumerate(top) if s_.get("kind") in ("WhileStmt", "ForStmt", "DoStmt") and _loads_in(d, s_)]
+    w = None
+    endt = None
+    if len(loops) != 1:
+        rep.inconclusive(R, "murmur_hash<8>", "block loop", where=where, detail="expected one top-level loop with block loads, found %d" % len(loops))
+    else:
+        li, loop = loops[0]
+        cond, parts, body = norm.loop_parts(loop)
+        snaps = []
+
+        def on_part2(x, env, lin_of):
+            for ln, src, size in _loads_in(d, x):
+                snaps.append((ln, _ptr_lin(src, lin_of), size))
+        env = norm.sym_step(parts, on_part2)
+        pvars = {k_ for _, p_, _ in snaps if p_ is not None for k_ in p_ if k_ != ""}
+        c = norm.norm_cmp(ir.sx(cond), lambda x: x[0] == "ref" and x[1] in pvars) if cond is not None else None
+        ef = end_form(c[2]) if c is not None and c[0] == "!=" else None
+        if not snaps or any(p_ is None or sz is None for _, p_, sz in snaps) or len(pvars) != 1 or ef is None:
+            rep.inconclusive(R, "murmur_hash<8>", "block loop", where=d.where(loop),
+                             detail="not of the form `while (cursor != base + (length & ~(w-1)))` with linear block loads (an index-based loop needs a different argument)")
+        else:
+            cursor = pvars.pop()
+            base, w = ef
+            endt = resolve(c[2])
+            dp = env.get(cursor, Lin({cursor: 1})) - Lin({cursor: 1})
+            step = dp.get("", 0) if set(dp) <= {""} else None
+            problems = []
+            if base != ("ref", cursor) and base != resolve(("ref", cursor)) and base != ("ref", ps[0]):
+                problems.append("the end pointer is not computed from the cursor's start")
+            if step != w:
+                problems.append("the cursor advances by %s per iteration but the end pointer is a multiple of %d away: the loop steps over it" % (step if step is not None else dp.show(), w))
+            for ln, p_, sz in snaps:
+                off = p_.get("", 0)
+                if p_.get(cursor) != 1 or off < 0 or off + sz > w:
+                    problems.append("a %d-byte load at cursor%+d reaches past the %d-byte block" % (sz, off, w))
+            (rep.violates if problems else rep.holds)(R, "murmur_hash<8>", "block loop", where=d.where(loop),
+                                                      detail="; ".join(problems) if problems else "end = start + (length & ~%d); loads %s; cursor +%d" % (w - 1, [(p_.get("", 0), sz) for _, p_, sz in snaps], step))
+    # any block load outside the guarded loop reads past buffer + length for short inputs
+    stray = [ln for ln, src, size in _loads_in(d, ir.body(fn)) if not any(ln is x or any(ln is y for y in ir.walk_expr(x)) for _, x in loops)]
+    if stray:
+        rep.violates(R, "murmur_hash<8>", "block loop", where=d.where(stray[0]), detail="a block load outside the guarded loop reads a whole word regardless of the bytes that remain")
+    # tail: load_bytes(end, length & (w-1)) under (length & (w-1)) != 0
+    calls = [n for n in ir.walk_expr(ir.body(fn)) if n.get("kind") == "CallExpr" and (ir.strip(ir.ekids(n)[0]).get("referencedDecl") or {}).get("name") == "load_bytes"]
+    if w is None or len(calls) != 1:
+        rep.inconclusive(R, "murmur_hash<8>", "tail", where=where, detail="block width unknown or no single load_bytes call (%d)" % len(calls))
+    else:
+        call = calls[0]
+        t = ir.sx(call)
+        a0, a1 = resolve(t[2]), t[3]
+        cw = low_mask(a1)
+        guard_w = None
+        p_ = d.parent_of(call)
+        while p_ is not None and p_ is not fn:
+            if p_.get("kind") == "IfStmt":
+                ct = ir.sx(ir.ekids(p_)[0])
+                c2 = norm.norm_cmp(ct, lambda x: low_mask(x) is not None)
+                if c2 is not None and c2[0] == "!=" and norm.int_of(c2[2]) == 0:
+                    guard_w = low_mask(c2[1])
+                elif low_mask(ct) is not None:
+                    guard_w = low_mask(ct)
+            p_ = d.parent_of(p_)
+        problems = []
+        if cw != w:
+            problems.append("load_bytes is asked for `%s` bytes, expected length & %d" % (ir.show(resolve(a1))[:40], w - 1))
+        if guard_w != w:
+            problems.append("the tail is not guarded by (length & %d) != 0 (found mask width %s): load_bytes(p, 0) reads p[-1]" % (w - 1, guard_w))
+        if endt is not None and a0 != endt and not (a0[0] == "ref" and a0[1] in pvars_after(loops, d)):
+            problems.append("load_bytes starts at `%s`, not at the end of the full blocks" % ir.show(a0)[:50])
+        (rep.violates if problems else rep.holds)(R, "murmur_hash<8>", "tail", where=d.where(call),
+                                                  detail="; ".join(problems) if problems else "load_bytes(end of blocks, length & %d) under (length & %d) != 0" % (w - 1, w - 1))
+
+
+def pvars_after(loops, d):
+    """the cursor variable(s) of the block loop: after the loop the cursor equals the end pointer"""
+    from .. import norm
+    out = set()
+    for _, loop in loops:
+        for ln, src, size in _loads_in(d, loop):
+            s_ = ir.strip(src)
+            while s_.get("kind") in ("ImplicitCastExpr", "CStyleCastExpr", "CXXStaticCastExpr") and ir.ekids(s_):
+                s_ = ir.strip(ir.ekids(s_)[-1])
+            if s_.get("kind") == "DeclRefExpr":
+                out.add((s_.get("referencedDecl") or {}).get("name"))
+    return out
+
+
+def fs_local_sx(fn):
+    from .. import fstring as fs
+    return fs.local_sx(fn)
+
+
+def subscripts_of(node):
+    for n in [node] + list(ir.walk_expr(node)):
+        if n.get("kind") == "ArraySubscriptExpr":
+            a, b = ir.ekids(n)
+            yield n, a, b
+
+
+def case_labels(stmts, nvar):
+    out = set()
+    for s_ in stmts:
+        for n in [s_] + list(ir.walk_expr(s_)):
+            if n.get("kind") == "CaseStmt":
+                iv = trange.interval(ir.ekids(n)[0])
+                if iv is not None and iv[0] == iv[1]:
+                    out.add(iv[0])
+    return out
 
 
 def run(tier):
